@@ -145,8 +145,8 @@ Print Assumptions C13_is_arg_refuted.
    encoded d and comes back as fill_defaults W _ d (absent optional fields of d that have an IDL default themselves now
    hold it -- the permitted round-trip difference of C02; nothing else differs).  Nested structs, container elements,
    union payloads: by induction on the tree.  Repeated field ids are covered (the last occurrence wins on both sides).
-   Only this direction holds: when the full reader rejects the original (e.g. an EARLIER occurrence of a repeated id
-   is malformed for W) it may accept the re-encoded message, which carries the last occurrence only. *)
+   The Err direction (what the full reader rejects it still rejects after the decode / re-encode) is C13_full_reader_err
+   below: it holds exactly when no struct of the message repeats a field id (C13_full_reader_err_repeated_refuted). *)
 Theorem C13_full_reader : forall S W p k c T tv g gw,
   wf_schema S = true -> wf_schema W = true -> sub_schema S W = true ->
   no_retyped_variant S T tv = true ->
@@ -192,3 +192,49 @@ Theorem C13_reenc_domain : forall S W p k c T tv g,
   evo_dom W T (reenc S T tv) = true /\ no_retyped_variant W T (reenc S T tv) = true.
 Proof. exact reenc_dom. Qed.
 Print Assumptions C13_reenc_domain.
+
+(* ---------- the Err direction of the last clause (gen-C) ----------
+   ids_distinct tv (FullSpec.v, decidable): in every struct of the message the field ids are pairwise distinct -- what every
+   writer produces.  Then the decode / re-encode loses nothing the full reader looks at: whatever it accepts afterwards it
+   accepted before (with the dfill relation of C13_full_reader), hence whatever it REJECTED before it rejects afterwards,
+   and on input of the declared shape with the same error class (the only one there: InvalidData -- a required field
+   absent, a union with no / several known variants, hereditarily). *)
+Theorem C13_full_reader_conv : forall S W p k c T tv g gw',
+  wf_schema S = true -> wf_schema W = true -> sub_schema S W = true ->
+  no_retyped_variant S T tv = true -> viewk S p k c T tv = Ok g -> ids_distinct tv = true ->
+  view W T (reenc S T tv) = Ok gw' ->
+  exists gw, view W T tv = Ok gw /\ dfill W T gw gw'.
+Proof. exact full_view_conv. Qed.
+Print Assumptions C13_full_reader_conv.
+
+Theorem C13_full_reader_err : forall S W p k c T tv g e,
+  wf_schema S = true -> wf_schema W = true -> sub_schema S W = true ->
+  no_retyped_variant S T tv = true -> viewk S p k c T tv = Ok g -> ids_distinct tv = true ->
+  view W T tv = Err e -> exists e', view W T (reenc S T tv) = Err e'.
+Proof. exact full_view_err. Qed.
+Print Assumptions C13_full_reader_err.
+
+Theorem C13_full_reader_err_class : forall S W p k c T tv g e,
+  wf_schema S = true -> wf_schema W = true -> sub_schema S W = true -> ty_closed W T = true ->
+  wt tv = true -> ttype_of tv = ttype_of_ty S T ->
+  evo_dom S T tv = true -> no_retyped_variant S T tv = true -> empty_elems_ok S T tv = true ->
+  evo_dom W T tv = true -> no_retyped_variant W T tv = true ->
+  viewk S p k c T tv = Ok g -> ids_distinct tv = true ->
+  view W T tv = Err e -> e = EInvalidData /\ view W T (reenc S T tv) = Err EInvalidData.
+Proof. exact full_view_err_class. Qed.
+Print Assumptions C13_full_reader_err_class.
+
+(* the exception is exact: with a repeated id whose EARLIER occurrence is malformed for the full reader (field 3 twice:
+   a Sub without the full schema's required field 9, then a complete one) the full reader rejects the original and accepts
+   the re-encoded message -- every reader, with or without retention, keeps the last occurrence only.  Replayed on the
+   emitted code (corpus type evo.Evo, NOTES.md): emitted bytes = bytes of reenc; not a finding (writers do not repeat ids;
+   the property quantifies over writer schemas) and not a model error. *)
+Theorem C13_full_reader_err_repeated_refuted :
+  wf_schema Sd = true /\ wf_schema Wd = true /\ sub_schema Sd Wd = true /\ wt tvd = true /\
+  no_retyped_variant Sd (TyRef 0) tvd = true /\ evo_dom Wd (TyRef 0) tvd = true /\ ids_distinct tvd = false /\
+  (exists g, viewk Sd PBinary BContig w0 (TyRef 0) tvd = Ok g) /\
+  view Wd (TyRef 0) tvd = Err EInvalidData /\
+  reenc Sd (TyRef 0) tvd = VStruct [ (1, VI32 7); (3, VStruct [(1, VBool false); (9, VI32 5)]) ] /\
+  view Wd (TyRef 0) (reenc Sd (TyRef 0) tvd) = Ok (GStruct [(1, GI32 7); (3, GStruct [(1, GBool false); (9, GI32 5)] [])] []).
+Proof. exact full_view_err_repeated_refuted. Qed.
+Print Assumptions C13_full_reader_err_repeated_refuted.
